@@ -25,7 +25,9 @@ FR_DERIVES = ['to_frame', 'to_frame_go', 'to_frame_he', 'ctor_static', 'ctor_go'
               'sort_columns', 'sort_index', 'sort_values', 'reindex', 'transpose', 'set_index', 'isna', 'mul',
               'head', 'tail', 'drop_col', 'group_first', 'iter_series_first', 'astype_obj', 'columns_static',
               'index_ref', 'assign', 'roll', 'shift', 'concat_self', 'to_frame_go_then_go', 'columns_copy',
-              'iter_array_hold', 'relabel_index', 'fillna']
+              'iter_array_hold', 'relabel_index', 'fillna', 'round', 'level_add_drop_index', 'level_add_columns', 'level_add_drop_columns',
+              'neg', 'abs', 'clip', 'cumsum', 'dropna', 'isin', 'rehierarch_index', 'unset_index', 'bloc_assign', 'level_add_index', 'level_drop_index',
+              'level_drop_index']
 
 
 def index_model_from(ix):
@@ -850,6 +852,40 @@ class FrameOps:
                 return type(obj).from_concat((obj, obj.relabel(index=lambda x: (x, 'r'))), axis=0)
             if how == 'fillna':
                 return obj.fillna(0)
+            if how == 'round':
+                return round(obj)
+            if how == 'level_add_drop_index':
+                # a level is added to, then dropped from, the index only: the columns pass through untouched
+                return obj.relabel_level_add(index='outer').relabel_level_drop(index=1)
+            if how == 'level_add_index':
+                return obj.relabel_level_add(index='outer')
+            if how == 'level_drop_index':
+                # only index levels are dropped: the (grow-only) columns must still not be shared with the source
+                if obj.index.depth < 2:
+                    raise SimulatedFailure('index is not hierarchical')
+                return obj.relabel_level_drop(index=1)
+            if how == 'level_add_columns':
+                return obj.relabel_level_add(columns='outer')
+            if how == 'level_add_drop_columns':
+                return obj.relabel_level_add(columns='outer').relabel_level_drop(columns=1)
+            if how == 'neg':
+                return -obj
+            if how == 'abs':
+                return abs(obj)
+            if how == 'clip':
+                return obj.clip(lower=0)
+            if how == 'cumsum':
+                return obj.cumsum()
+            if how == 'dropna':
+                return obj.dropna()
+            if how == 'isin':
+                return obj.isin((0, 1))
+            if how == 'rehierarch_index':
+                return obj.relabel_level_add(index='outer').rehierarch(index=(1, 0))
+            if how == 'unset_index':
+                return obj.unset_index()
+            if how == 'bloc_assign':
+                return obj.assign.bloc[obj.isna()](0)
             if how == 'iter_array_hold':
                 return sf.Frame.from_items(zip(range(nc), list(obj.iter_array(axis=0))), index=obj.index)
             raise KeyError(how)
